@@ -97,8 +97,29 @@ def sites_of(fn):
                 out.append(Site(fn, bi, "unwrap", name.split("::")[-1], origin_desc(fn, t["args"][0]), loc, t["exp"]))
             elif re.search(INDEXES, name) or (f.get("trait") or "").endswith(("ops::index::Index", "ops::index::IndexMut")):
                 recv = t["args"][0]
-                rty = f.get("self_ty") or (f.get("substs") or ["?"])[0]
-                out.append(Site(fn, bi, "index", re.sub(r"<.*", "", rty.split("::")[-1]) or rty, origin_desc(fn, t["args"][1]) if len(t["args"]) > 1 else "-", loc, t["exp"]))
+                rty = fn.locals[recv[1][0]]["ty"] if recv[0] != "k" else "?"
+                rty = re.sub(r"^&(mut )?", "", rty)
+                cont = "other"
+                for pat, nm in ((r"^std::collections::HashMap<", "HashMap"), (r"^std::collections::BTreeMap<", "BTreeMap"),
+                                (r"^std::vec::Vec<", "Vec"), (r"^\[", "slice"), (r"^str$", "str"), (r"^std::boxed::Box<str>$", "str"),
+                                (r"^std::string::String$", "str"), (r"^std::sync::Arc<str>$", "str"), (r"MownStr", "str"),
+                                (r"^std::collections::VecDeque<", "VecDeque")):
+                    if re.search(pat, rty):
+                        cont = nm
+                        break
+                if cont == "other":
+                    cont = re.sub(r"<.*", "", rty).split("::")[-1]
+                idx = t["args"][1] if len(t["args"]) > 1 else None
+                idesc = origin_desc(fn, idx)
+                if idx is not None:
+                    io = fn.origin(idx)
+                    if io[0] == "agg" and io[1].get("vname", "").startswith("Range"):
+                        idesc = io[1]["vname"]
+                    elif io[0] == "const" and io[1].get("kind") == "int":
+                        idesc = "const:" + io[1]["v"]
+                    elif io[0] == "const" and io[1].get("kind") == "str":
+                        idesc = "key:" + str(io[1]["v"])[-24:]
+                out.append(Site(fn, bi, "index", cont, idesc, loc, t["exp"]))
                 out[-1].recv_ty = rty
         if t["t"] == "call":
             # panicking functions passed as values:  .map(Result::unwrap)
@@ -186,6 +207,26 @@ def always_some(fn):
     return bool(somes) and not others and not calls_to_0
 
 
+def const_index_guarded(fn, site, t, k):
+    """`v[k]` dominated by the true edge of `v.len() == n` (n > k), `v.len() > n` (n >= k) or `v.len() >= n` (n > k)"""
+    recv = provenance(fn, t["args"][0])[-1]
+    for cand in sorted(fn.dominators().get(site.bi, ())):
+        bs = bool_switch(fn, cand)
+        if not bs or bs[0][0] != "rvalue" or bs[0][1][0] != "bin":
+            continue
+        op, a, b = bs[0][1][1], bs[0][1][2], bs[0][1][3]
+        oa, ob = fn.origin(a), fn.origin(b)
+        if oa[0] == "call" and call_name_matches(oa[1], r"::len$") and ob[0] == "const" and ob[1].get("kind") == "int":
+            n = int(ob[1]["v"])
+            lrecv = provenance(fn, oa[1]["args"][0])[-1]
+            if lrecv != recv and not (lrecv[0] == "param" and recv[0] == "param" and lrecv[1:] == recv[1:]):
+                continue
+            good = (op == "Eq" and n > k) or (op == "Gt" and n >= k) or (op == "Ge" and n > k)
+            if good and edge_dominates(fn, (cand, bs[1]), site.bi):
+                return "constant index %d on the true edge of len() %s %d" % (k, {"Eq": "==", "Gt": ">", "Ge": ">="}[op], n)
+    return None
+
+
 def str_index_guarded(fn, site, t):
     """`&s[x.len()..]` dominated by the true edge of `s.starts_with(x)`"""
     if len(t["args"]) < 2:
@@ -244,6 +285,11 @@ def classify(facts, sites, table, validators=(), regex_ok=True):
             ro = fn.origin(t["args"][1])
             if ro[0] == "agg" and ro[1].get("vname") == "RangeFull":
                 s.status, s.reason = "auto", "full-range slice `[..]` cannot be out of bounds"
+                continue
+        if s.kind == "index" and s.status == "unaudited" and s.detail.startswith("const:"):
+            g = const_index_guarded(fn, s, t, int(s.detail[6:]))
+            if g:
+                s.status, s.reason = "auto", g
                 continue
         if s.kind == "index" and s.status == "unaudited":
             g = str_index_guarded(fn, s, t)
